@@ -4,11 +4,19 @@
 (* (src/storage/account, AccountDB) over its observable state.             *)
 (*                                                                         *)
 (* The observable state is what the exported queries answer:               *)
-(*   per account  ex (Exist), nonce, code, st (storage slots), sui         *)
-(*                (HasSuicided), bal (GetBalance)                          *)
+(*   per account  ex (Exist), nonce, code, st (storage slots), ss (the     *)
+(*                EVM word slot of SetState), sui (HasSuicided), bal       *)
+(*                (GetBalance), ftOwn / ftBnd (amount of the fungible token*)
+(*                FT kept in the holder's own storage / in the storage of  *)
+(*                the contract FT is bound to; GetFT answers the one the   *)
+(*                binding selects)                                         *)
 (*   global       refund, logs (number of logs per transaction hash),      *)
 (*                logSize, accA / accS (access list), tr (transient        *)
-(*                storage), tx (transaction the logs are filed under)      *)
+(*                storage), tx (transaction the logs are filed under),     *)
+(*                bound (an ERC20 binding of FT is registered)             *)
+(*                                                                         *)
+(* Amounts of debits come from the lattice {1, b-1, b, b+1} around the     *)
+(* current balance b of the debited account (exact-balance boundary).      *)
 (*                                                                         *)
 (* Reference: Snapshot() remembers the whole observable state under a new  *)
 (* id; RevertToSnapshot(id) restores exactly that state and forgets id and *)
@@ -32,7 +40,8 @@ CONSTANTS Accounts,   \* 1..NA
 NA == Cardinality(Accounts)
 NK == Cardinality(Keys)
 
-NoAcct == [ex |-> FALSE, nonce |-> 0, code |-> 0, st |-> [k \in Keys |-> 0], sui |-> FALSE, bal |-> 0]
+NoAcct == [ex |-> FALSE, nonce |-> 0, code |-> 0, st |-> [k \in Keys |-> 0], ss |-> 0, sui |-> FALSE, bal |-> 0,
+           ftOwn |-> 0, ftBnd |-> 0]
 
 (* the three committed start states of the conformance check *)
 Start(s) ==
@@ -40,7 +49,7 @@ Start(s) ==
                IF s = 1 THEN NoAcct
                ELSE IF s = 2 THEN (IF a = 1 THEN [NoAcct EXCEPT !.ex = TRUE, !.nonce = 1, !.st = [k \in Keys |-> IF k = 1 THEN 1 ELSE 0], !.bal = 5]
                                    ELSE NoAcct)
-               ELSE (IF a = 1 THEN [NoAcct EXCEPT !.ex = TRUE, !.nonce = 3, !.code = 1, !.st = [k \in Keys |-> 2], !.bal = 9]
+               ELSE (IF a = 1 THEN [NoAcct EXCEPT !.ex = TRUE, !.nonce = 3, !.code = 1, !.st = [k \in Keys |-> 2], !.bal = 9, !.ftOwn = 4]
                      ELSE [NoAcct EXCEPT !.ex = TRUE, !.st = [k \in Keys |-> IF k = 1 THEN 1 ELSE 0]])],
    refund |-> 0,
    logs |-> <<0, 0>>,
@@ -48,23 +57,38 @@ Start(s) ==
    accA |-> [a \in Accounts |-> FALSE],
    accS |-> [a \in Accounts |-> FALSE],
    tr |-> [a \in Accounts |-> 0],
-   tx |-> 1]
+   tx |-> 1,
+   bound |-> FALSE]
 
 -----------------------------------------------------------------------------
 (* Calls: <<op, a, x, y>>                                                  *)
 
 Touch(s, a)    == [s EXCEPT !.acct[a].ex = TRUE]
-IsEmptyAcct(r) == r.nonce = 0 /\ r.code = 0 /\ \A k \in Keys : r.st[k] = 0
+IsEmptyAcct(r) == r.nonce = 0 /\ r.code = 0 /\ r.ss = 0 /\ r.ftOwn = 0 /\ \A k \in Keys : r.st[k] = 0
+
+FT(s, a) == IF s.bound THEN s.acct[a].ftBnd ELSE s.acct[a].ftOwn
+SetFTv(s, a, v) == IF s.bound THEN [s EXCEPT !.acct[a].ftBnd = v]
+                   ELSE [Touch(s, a) EXCEPT !.acct[a].ftOwn = v]
+(* amounts around a balance b *)
+Lat(b) == {x \in {1, b, b + 1} \cup (IF b > 1 THEN {b - 1} ELSE {}) : x >= 1}
 
 Mut(s, c) ==
   LET op == c[1]  a == c[2]  x == c[3]  y == c[4] IN
   CASE op = "SN" -> [Touch(s, a) EXCEPT !.acct[a].nonce = x]
     [] op = "IN" -> [Touch(s, a) EXCEPT !.acct[a].nonce = s.acct[a].nonce + 1]
     [] op = "SD" -> [Touch(s, a) EXCEPT !.acct[a].st[x] = y]
+    [] op = "SS" -> [Touch(s, a) EXCEPT !.acct[a].ss = x]
     [] op = "SC" -> [Touch(s, a) EXCEPT !.acct[a].code = x]
     [] op = "AB" -> [s EXCEPT !.acct[a].bal = s.acct[a].bal + x]
     [] op = "SB" -> IF s.acct[a].bal >= x THEN [s EXCEPT !.acct[a].bal = s.acct[a].bal - x] ELSE s
     [] op = "TB" -> [s EXCEPT !.acct[a].bal = x]
+    [] op = "TR" -> (* Transfer(a, y, x): debit if covered, credit in any case (callers check CanTransfer) *)
+                    LET s1 == IF s.acct[a].bal >= x THEN [s EXCEPT !.acct[a].bal = s.acct[a].bal - x] ELSE s
+                    IN  [s1 EXCEPT !.acct[y].bal = s1.acct[y].bal + x]
+    [] op = "AF" -> SetFTv(s, a, FT(s, a) + x)
+    [] op = "SF" -> IF FT(s, a) >= x THEN SetFTv(s, a, FT(s, a) - x) ELSE s
+    [] op = "TF" -> SetFTv(s, a, x)
+    [] op = "BI" -> [s EXCEPT !.bound = TRUE]          \* AddERC20Binding: write-once
     [] op = "CA" -> Touch(s, a)
     [] op = "SU" -> IF s.acct[a].ex THEN [s EXCEPT !.acct[a].sui = TRUE, !.acct[a].bal = 0] ELSE s
     [] op = "AR" -> [s EXCEPT !.refund = s.refund + x]
@@ -77,20 +101,27 @@ Mut(s, c) ==
 (* end of a transaction: self-destructed and empty accounts disappear, the refund counter is reset *)
 Final(s) ==
   [s EXCEPT !.acct = [a \in Accounts |-> IF s.acct[a].ex /\ (s.acct[a].sui \/ IsEmptyAcct(s.acct[a]))
-                                          THEN [NoAcct EXCEPT !.bal = s.acct[a].bal] ELSE s.acct[a]],
+                                          THEN [NoAcct EXCEPT !.bal = s.acct[a].bal, !.ftBnd = s.acct[a].ftBnd] ELSE s.acct[a]],
             !.refund = 0]
 
 (* start of a transaction *)
 Prep(s, t) == [s EXCEPT !.tx = t, !.accA = [a \in Accounts |-> FALSE], !.accS = [a \in Accounts |-> FALSE]]
 
-Mutators ==
+(* the calls that can be made in state s (debit amounts depend on the balances) *)
+Mutators(s) ==
   {<<"SN", a, n, 0>> : a \in Accounts, n \in {0, 2}} \cup
   {<<"IN", a, 0, 0>> : a \in Accounts} \cup
   {<<"SD", a, k, v>> : a \in Accounts, k \in Keys, v \in {0, 1, 2}} \cup
+  {<<"SS", a, v, 0>> : a \in Accounts, v \in {0, 1}} \cup
   {<<"SC", a, c, 0>> : a \in Accounts, c \in {1, 2}} \cup
   {<<"AB", a, x, 0>> : a \in Accounts, x \in {0, 3}} \cup
-  {<<"SB", a, 1, 0>> : a \in Accounts} \cup
+  UNION {{<<"SB", a, x, 0>> : x \in Lat(s.acct[a].bal)} : a \in Accounts} \cup
   {<<"TB", a, 7, 0>> : a \in Accounts} \cup
+  UNION {{<<"TR", a, x, b>> : x \in Lat(s.acct[a].bal)} : a \in Accounts, b \in Accounts} \cup
+  {<<"AF", a, x, 0>> : a \in Accounts, x \in {0, 3}} \cup
+  UNION {{<<"SF", a, x, 0>> : x \in Lat(FT(s, a))} : a \in Accounts} \cup
+  {<<"TF", a, 7, 0>> : a \in Accounts} \cup
+  {<<"BI", 0, 0, 0>>} \cup
   {<<"CA", a, 0, 0>> : a \in Accounts} \cup
   {<<"SU", a, 0, 0>> : a \in Accounts} \cup
   {<<"AR", 0, 5, 0>>, <<"SR", 0, 2, 0>>, <<"AL", 0, 0, 0>>} \cup
@@ -99,7 +130,8 @@ Mutators ==
   {<<"TS", a, v, 0>> : a \in Accounts, v \in {0, 1}}
 
 (* SubRefund panics below zero: never called that way *)
-Callable(s, c) == c[1] = "SR" => s.refund >= c[3]
+Callable(s, c) == /\ c[1] = "SR" => s.refund >= c[3]
+                  /\ c[1] = "TR" => c[2] # c[4]
 
 -----------------------------------------------------------------------------
 VARIABLES st,       \* the observable state
@@ -154,7 +186,7 @@ Prepare(t) ==
   /\ UNCHANGED <<snaps, nextId, start>>
 
 Next ==
-  \/ \E c \in Mutators : DoMut(c)
+  \/ \E c \in Mutators(st) : DoMut(c)
   \/ Snapshot
   \/ \E i \in 1..MaxDepth : Revert(i)      \* (guarded by i <= Len(snaps))
   \/ Finalise
